@@ -177,7 +177,7 @@ def shard(i, n, args):
                 except Exception as e:
                     from .pyside import exc_key
 
-                    fail("extra keys make structuring fail|%s|%s" % (root.kind if root.kind != "S" else "S", re.sub(r"(Extra fields in constructor for \w+).*", r"\1", exc_key(e))[:90]), dict(wit, error=repr(e)))
+                    fail("extra keys make structuring fail|%s|%s" % (root.kind if root.kind != "S" else "S", re.sub(r"KeyError:'[^']*'", "KeyError:<undeclared key>", re.sub(r"(Extra fields in constructor for \w+).*", r"\1", exc_key(e)))[:90]), dict(wit, error=repr(e)))
                     continue
                 if o1 != o0:
                     fail("extra keys change the structured result|%s" % root.kind, dict(wit, base=repr(o0)[:300], got=repr(o1)[:300]))
